@@ -408,7 +408,7 @@ func runWorkers(chk *Check, h *Harness, tier, work string) (*Result, int, error)
 		os.RemoveAll(tmp)
 		os.MkdirAll(tmp, 0755)
 		ws.tmp = tmp
-		cmd.Env = append(os.Environ(), "GOMAXPROCS="+strconv.Itoa(procs), "TMPDIR="+tmp)
+		cmd.Env = append(os.Environ(), "GOMAXPROCS="+strconv.Itoa(procs), "TMPDIR="+tmp, "GORACE=halt_on_error=1 exitcode=66")
 		lf, _ := os.Create(ws.out + ".log")
 		cmd.Stdout = lf
 		cmd.Stderr = lf
@@ -432,6 +432,7 @@ func runWorkers(chk *Check, h *Harness, tier, work string) (*Result, int, error)
 	running := n
 	finished := make([]bool, n)
 	restarts := 0
+	raceCrashes := 0 // a data race reported by the race detector ends the worker; a handful of reports is enough
 	for running > 0 {
 		time.Sleep(50 * time.Millisecond)
 		for i, ws := range states {
@@ -449,6 +450,13 @@ func runWorkers(chk *Check, h *Harness, tier, work string) (*Result, int, error)
 				idx, prefix, pclass := readProgress(ws.out + ".progress")
 				logb, _ := os.ReadFile(ws.out + ".log")
 				msg := tail(string(logb), 3000)
+				if i := strings.Index(string(logb), "WARNING: DATA RACE"); i >= 0 {
+					// a race report is long: keep its head (the two conflicting accesses)
+					msg = string(logb)[i:]
+					if len(msg) > 3000 {
+						msg = msg[:3000]
+					}
+				}
 				if ee, ok := err.(*exec.ExitError); ok && ee.ExitCode() == 3 {
 					return nil, n, fmt.Errorf("worker %d infrastructure error: %s", i, msg)
 				}
@@ -459,7 +467,10 @@ func runWorkers(chk *Check, h *Harness, tier, work string) (*Result, int, error)
 				crashes = append(crashes, Violation{Property: chk.ID, Harness: h.Name, Tier: tier, Choices: prefix, Class: ccls,
 					Message: "worker process died (" + err.Error() + "): " + firstLines(msg, 12), Crash: true})
 				restarts++
-				if restarts > 3000 || idx < 0 {
+				if strings.HasSuffix(ccls, ":data-race") {
+					raceCrashes++
+				}
+				if restarts > 3000 || idx < 0 || raceCrashes > 8 {
 					finished[i] = true
 					running--
 					crashes[len(crashes)-1].Message += " [worker not restarted]"
@@ -585,6 +596,9 @@ func readProgress(path string) (int64, []int, string) {
 // panicFingerprint reduces the first "panic:" / "fatal error:" line of a crash log to letters
 // only, so that it names the kind of crash but not addresses or numbers.
 func panicFingerprint(log string) string {
+	if strings.Contains(log, "WARNING: DATA RACE") {
+		return "data-race"
+	}
 	for _, l := range strings.Split(log, "\n") {
 		if strings.HasPrefix(l, "panic:") || strings.HasPrefix(l, "fatal error:") {
 			var sb strings.Builder
@@ -616,7 +630,7 @@ func firstLines(s string, n int) string {
 	lines := strings.Split(s, "\n")
 	// prefer the region starting at the first "panic:" or "fatal error:"
 	for i, l := range lines {
-		if strings.HasPrefix(l, "panic:") || strings.HasPrefix(l, "fatal error:") {
+		if strings.HasPrefix(l, "panic:") || strings.HasPrefix(l, "fatal error:") || strings.HasPrefix(l, "WARNING: DATA RACE") {
 			lines = lines[i:]
 			break
 		}
